@@ -162,6 +162,8 @@ def cpRun (hexNames : Bool) : P String := do
   let tag : Tag := { magic := 13, hashDT := hashDT 8, hashIT := hashIT 8 }
   if objs.any (fun o => assignAborts true true o.2) then pure "ABORT" else
   let recs := objs.map fun o => (o.1, (serialize tag 8 8 o.2).getD [])
+  -- a duplicate identifier is rejected by `add_object`
+  if (cpRegisterAll [] recs).isNone then pure "ABORT" else
   let stream := cpSave recs
   let loaded := cpLoad stream
   let outs := order.map fun k =>
@@ -209,6 +211,19 @@ def handle : P String := do
     match dfRead file [] [] with
     | none => pure "ABORT"
     | some (s2, b2) => pure s!"F {showHex file} S {showHex s2} B {showHex b2}"
+  | "cpmiss" =>
+    -- restore an identifier that was never registered: `restore_object` asserts (reported, not silently wrong)
+    let missing ← tok; let n ← nat
+    let objs ← many n (do
+      let name ← tok; let kind ← tok
+      let c ← kindP kind 8
+      pure ((if name = "-" then [] else unhex name.toList), c))
+    let tag : Tag := { magic := 13, hashDT := hashDT 8, hashIT := hashIT 8 }
+    let recs := objs.map fun o => (o.1, (serialize tag 8 8 o.2).getD [])
+    if (cpRegisterAll [] recs).isNone then pure "ABORT" else
+    match cpRestore (cpLoad (cpSave recs)) (if missing = "-" then [] else unhex missing.toList) with
+    | none => pure "ABORT"
+    | some data => pure s!"RESTORED {showHex data}"
   | "cp" => cpRun false
   | "cpx" => do let _ ← nat; cpRun true
   | _ => throw s!"unknown op {op}"
